@@ -160,11 +160,27 @@ class Interp:
 
     # ------------------------------------------------------------------ models
     def _bind_models(self):
+        key = tuple(p for p, _ in self.models)
+        if getattr(self.prog, "_bound_models", None) == key:
+            return
+        # index patterns by a literal prefix/suffix to avoid trying every regex on every instance
         for inst in self.prog.insts.values():
+            inst.model = None
+            nm = inst.name
             for pat, fn in self.models:
-                if glob_match(pat, inst.name):
+                if "*" not in pat:
+                    if pat == nm:
+                        inst.model = fn
+                        break
+                    continue
+                head = pat.split("*", 1)[0]
+                tail = pat.rsplit("*", 1)[1]
+                if not nm.startswith(head) or not nm.endswith(tail):
+                    continue
+                if glob_match(pat, nm):
                     inst.model = fn
                     break
+        self.prog._bound_models = key
 
     # ------------------------------------------------------------------ solver
     def check(self, pc, extra=None):
@@ -1190,6 +1206,12 @@ class Interp:
                 return v.ptr
             if isinstance(v, int):
                 return IntPtr(v)
+        if sty.kind in ("int", "bool") and dty.kind == "adt" and dty.is_struct:
+            return self.wrap_scalar_like(dty, v)
+        if sty.kind == "adt" and sty.is_struct and dty.kind in ("int", "bool"):
+            while isinstance(v, Agg) and v.f:
+                v = v.f[0]
+            return v
         if sty.kind == "int" and dty.kind == "char":
             return v
         if sty.kind == "char" and dty.kind == "int":
@@ -1213,6 +1235,24 @@ class Interp:
                     out.append(UNIT)
             return Agg(None, out)
         raise Unsupported("wrap_like %s" % ty)
+
+    def wrap_scalar_like(self, ty, v):
+        """value of a (nested) single-scalar-field struct type (Atomic<T>, Cell<T>, UnsafeCell<T> ...) holding scalar v"""
+        if ty.kind in ("int", "bool", "char"):
+            return v
+        if ty.kind == "adt" and ty.is_struct:
+            fs = ty.variant_fields(0)
+            out = []
+            used = False
+            for f in fs:
+                ft = self.types[f["ty"]]
+                if not used and (ft.kind in ("int", "bool", "char") or (ft.kind == "adt" and ft.is_struct and ft.layout and ft.layout["size"]["num_bits"] > 0)):
+                    out.append(self.wrap_scalar_like(ft, v))
+                    used = True
+                else:
+                    out.append(UNIT)
+            return Agg(None, out)
+        raise Unsupported("wrap_scalar_like %s" % ty)
 
     def contains_ptr(self, t):
         if t.kind in ("ref", "rawptr", "pat"):
